@@ -17,6 +17,12 @@ def make_replacement(rng, pat, kind, reach=2.5):
     ppos = np.asarray(pat["positions"], float)
     pels = list(pat["elements"])
     n = len(pels)
+    as_written = bool(rng.integers(4) == 0)
+    if as_written:
+        # both patterns as two files written by different programs hold them: one atom at the origin (exact zeros), the common
+        # atoms of the replacement with -0.0 where the search pattern has 0.0 and with the last printed digit's noise (< 5e-7)
+        ppos = ppos - ppos[int(rng.integers(n))]
+        pat["positions"] = ppos
     cen = ppos.mean(0)
     els, pos, shared = [], [], []
 
@@ -37,7 +43,11 @@ def make_replacement(rng, pat, kind, reach=2.5):
     def keep(idx):
         for j in idx:
             els.append(pels[j])
-            pos.append(ppos[j].copy())
+            q = ppos[j].copy()
+            if as_written:
+                q = q + rng.uniform(-4e-7, 4e-7, 3) * (q != 0.0)
+                q[q == 0.0] = -0.0
+            pos.append(q)
             shared.append(int(j))
 
     if kind == "empty":
